@@ -6,7 +6,7 @@ import struct
 from vlib import core, e2e
 from vlib.coord_common import first_diff
 
-MODS = ['S4V.Props.SortSpec', 'S4V.Props.FilterSpec', 'S4V.Props.FixedSpec', 'S4V.Props.FixedRenderSpec', 'S4V.Props.LayoutDetectSpec']
+MODS = ['S4V.Props.SortSpec', 'S4V.Props.FilterSpec', 'S4V.Props.FixedSpec', 'S4V.Props.FixedRenderSpec', 'S4V.Props.LayoutDetectSpec', 'S4V.Props.FixedWalkSpec']
 LEVEL_NOTE = ("Proved over the model of `insert into BTreeMap, walk in key order` with the key shape, the window comparisons and the null-record test "
               "regenerated from fixedstructreader.rs on every run: every non-null in-window record exactly once, ordered by time value, equal times in file order "
               "(C08_order = stable sort), both window bounds inclusive. WHICH value is the record's time is proved too (FixedSpec), over a table regenerated from "
@@ -79,7 +79,13 @@ def run_case(ctx, rng, k, kind='plain'):
     if all(t == (0, 0) for t in times):
         times[0] = (1700000001, 1)
     # a null record is either an all-zero slot (as wtmp files really contain) or a filled record whose time is (0, 0)
-    data = b''.join((bytes(384) if (s, u) == (0, 0) and rng.chance(2, 3) else rec(i, s, u)) for i, (s, u) in enumerate(times))
+    # ... or (every 5th file) an all-0xFF slot, which the reader documents as a null record too: its time reads as -1, it enters the
+    # time-ordered map, FixedStruct::new rejects it, and the walk must go on to the next record (seeded change C08-d: the resume offset was lost)
+    def null_slot():
+        if k % 5 == 3 and rng.chance(1, 2):
+            return b'\xff' * 384
+        return bytes(384)
+    data = b''.join((null_slot() if (s, u) == (0, 0) and rng.chance(2, 3) else rec(i, s, u)) for i, (s, u) in enumerate(times))
     path = os.path.join(ctx.work, 'c08_%d.wtmp%s' % (k, e2e.SUFFIX[kind]))
     e2e.pack(data, kind, path, inner_name='c08.wtmp')
     secs = sorted(set(s for s, _ in times if s))
@@ -402,7 +408,7 @@ def known_acct_v3_witness(ctx):
 
 
 def check(ctx):
-    ok_gen = core.step_gen(ctx, ['Keys', 'Filter', 'Fixed', 'FixedRender', 'LayoutDetect'])
+    ok_gen = core.step_gen(ctx, ['Keys', 'Filter', 'Fixed', 'FixedRender', 'LayoutDetect', 'Blocks', 'Stream', 'FixedWalk'])
     prove = core.step_prove(ctx, MODS) if ok_gen else {'module': ' '.join(MODS), 'obligations': 0, 'discharged': 0}
     ok_drv = core.step_drv(ctx) if (ok_gen or ctx.search_mode) else False
     ok_impl = core.step_build_impl(ctx)
@@ -416,6 +422,9 @@ def check(ctx):
             # which layout a file is read with: the real FixedStructReader::new / score_fixedstruct vs Model.LayoutDetect
             os.environ.setdefault('S4H_TMP', os.path.join(core.BUILD, 'tmp'))
             corr.append(core.correspond(ctx, 'layout', ctx.q(6000, 50000)))
+            # the record walk: the real FixedStructReader (new / fileoffset_first / process_entry_at / summary) on files of every layout x
+            # block sizes from 1 x windows x plain|gz, and direct BlockReader::read_data_to_buffer call sequences, vs Model.FixedWalk
+            corr.append(core.correspond(ctx, 'fwalk', ctx.q(3000, 30000)))
         orc1, corr1 = oracle_and_corr(ctx)
         orc2, corr2 = oracle_and_corr2(ctx)
         # every layout, in-process: files through the real FixedStructReader driven as exec_fixedstructprocessor drives it;
